@@ -397,3 +397,65 @@ func (p *Program) RootFuncs() []*ssa.Function {
 	p.rootFuncs = out
 	return out
 }
+
+// EntryLockset: the mutexes held at EVERY call site of an eligible helper
+// (in the helper's own terms), so that "caller must hold mu" helpers are
+// analysed with the lock their callers provide.
+func EntryLockset(fn *ssa.Function) LockSet { return entryLockset(fn, 0) }
+
+var elBusy = map[*ssa.Function]bool{}
+
+func entryLockset(fn *ssa.Function, depth int) LockSet {
+	if depth > 4 || elBusy[fn] || !Eligible(fn) {
+		return LockSet{}
+	}
+	elBusy[fn] = true
+	defer delete(elBusy, fn)
+	var common LockSet
+	for k, s := range sitesOf(fn) {
+		caller := s.Parent()
+		held := MustHeld(caller, entryLockset(caller, depth+1))[s]
+		if _, isDefer := s.(*ssa.Defer); isDefer {
+			// runs at function exit: whatever is held at the returns with deferred unlocks not yet run is unknowable here
+			held = LockSet{}
+		}
+		// translate caller paths to callee paths through the arguments
+		tr := LockSet{}
+		for m, kind := range held {
+			for i, a := range s.Common().Args {
+				if i >= len(fn.Params) {
+					break
+				}
+				ad := Desc(a)
+				if m == ad || strings.HasPrefix(m, ad+".") {
+					tr[fn.Params[i].Name()+strings.TrimPrefix(m, ad)] = kind
+				}
+			}
+			if !strings.Contains(m, ".") {
+				tr[m] = kind // global mutex
+			}
+			// closures see the parent's variables under the same names
+			if fn.Parent() != nil {
+				tr[m] = kind
+			}
+		}
+		if k == 0 {
+			common = tr
+		} else {
+			for m, kind := range common {
+				if tr[m] != kind {
+					delete(common, m)
+				}
+			}
+		}
+	}
+	if common == nil {
+		common = LockSet{}
+	}
+	return common
+}
+
+// MustHeldCtx is MustHeld with the entry lockset the call sites guarantee.
+func MustHeldCtx(fn *ssa.Function) map[ssa.Instruction]LockSet {
+	return MustHeld(fn, EntryLockset(fn))
+}
